@@ -160,7 +160,7 @@ def r1_tables(ctx, lk, shape_ok):
     for key, c in tabs:
         entries = c["value"]
         if len(entries) != 64:
-            ctx.lost(rid, "%s has %d entries" % (key, len(entries)))
+            ctx.lost(rid, "%s has %d entries" % (key, len(entries)), missing=True)
             continue
         # which ray kind does this table implement? decided on the empty board of a centre square, verified everywhere
         e27 = entries[27]
